@@ -11,9 +11,9 @@ a failing call leaves its output NULL; node links intact after every op.  Saniti
 history's line (reported with the innermost frames in one canonical `VERIF ERROR:` line, which classify() reads).
 
 The schema knowledge of the generator is parsed from the harness' own built-in YANG text (`life schema <n>`), so the two cannot
-drift apart.  Streams: main; f19 (lyd_change_term on leaf-list instances / list keys); f60 (lyd_new_path UPDATE on any nodes);
-multierr (LYD_VALIDATE_MULTI_ERROR parses, F62); lrlink (LY_CTX_LEAFREF_LINKING, F63); opaq (opaque nodes: LYD_PARSE_OPAQ,
-lyd_new_opaq, attributes, NETCONF envelopes - kept away from merge/diff); subval (validated subtree parses, F68).
+drift apart.  Streams: main; f19 (lyd_change_term on leaf-list instances / list keys); f111 (lyd_new_path UPDATE on any nodes);
+multierr (LYD_VALIDATE_MULTI_ERROR parses, F113); lrlink (LY_CTX_LEAFREF_LINKING, F114); opaq (opaque nodes: LYD_PARSE_OPAQ,
+lyd_new_opaq, attributes, NETCONF envelopes - kept away from merge/diff); subval (validated subtree parses, F119).
 Left to other properties on purpose (see comments at the generators): XPath string casts / deref() typing / preceding-sibling,
 merge and diff of trees with opaque nodes, structural edits of list keys, LYB-format values with undefined bits.
 Not done: allocation-failure enumeration (--wrap=malloc, F26).
@@ -24,7 +24,7 @@ from vlib.proto import hexs, unhex
 
 HARNESS = "api_life"
 # findings this module knows how to recognise (entries in findings.d/life.json)
-FINDINGS = ["F19", "F21", "F60", "F61", "F62", "F63", "F64", "F65", "F66", "F67", "F68", "F69", "F70", "F71", "F72", "F73"]
+FINDINGS = ["F19", "F21", "F111", "F112", "F113", "F114", "F115", "F116", "F117", "F118", "F119", "F120", "F121", "F122", "F123", "F124", "F125", "F126", "F127", "F128"]
 # a leak report is symbolized by an external process per frame batch: keep it short
 ENV = {"LSAN_OPTIONS": "exitcode=96:max_leaks=2"}
 NSLOT = 6
@@ -912,7 +912,7 @@ class HistGen:
         self.tg = TreeGen(self.schema, self.values, self.rng)
         self.doc = Doc(self.schema, self.values, self.rng)
         self.known = {}                 # slot -> list of top instances (our best knowledge)
-        self.stream = stream            # "main" | "f19" | "f60"
+        self.stream = stream            # "main" | "f19" | "f111"
         self.ops = []
         self.kinds = []
 
@@ -1048,7 +1048,7 @@ class HistGen:
         popts = rng.choice((P_ONLY, 0, P_ONLY | P_OPAQ, P_STRICT))
         if self.stream != "opaq":
             popts &= ~P_OPAQ
-        # F64 / F68: validation of a subtree parse (leaks implicit top-level nodes when it fails; goes on with an auto-deleted first
+        # F115 / F119: validation of a subtree parse (leaks implicit top-level nodes when it fails; goes on with an auto-deleted first
         # child): full validation only in the seed, LYD_VALIDATE_PRESENT only in the "subval" stream
         if self.stream != "subval":
             popts |= P_ONLY
@@ -1111,9 +1111,9 @@ class HistGen:
         opts = rng.choice((0, 0, 0, NP_UPDATE, NP_UPDATE, NP_OPAQ, NP_UPDATE | NP_OPAQ, NP_STORE_ONLY, NP_WITH_OPAQ, NP_OUTPUT))
         if self.stream != "opaq":
             opts &= ~(NP_OPAQ | NP_WITH_OPAQ)
-        if sn.kind in ("anydata", "anyxml") and self.stream != "f60":
-            opts &= ~NP_UPDATE          # F60: updating an existing any node keeps the caller's pointer
-        if self.stream == "f60" and sn.kind in ("anydata", "anyxml"):
+        if sn.kind in ("anydata", "anyxml") and self.stream != "f111":
+            opts &= ~NP_UPDATE          # F111: updating an existing any node keeps the caller's pointer
+        if self.stream == "f111" and sn.kind in ("anydata", "anyxml"):
             opts |= NP_UPDATE
         if rng.random() < 0.8 or sn.kind in ("container", "list"):
             self.emit("new_path:%s:%s" % (sn.kind, "badval" if bad_val else "ok"), O("np", s, opts, path, val))
@@ -1429,7 +1429,8 @@ class HistGen:
                 "%s | %s" % (plain, "/" + plain.split("/")[1]), "..", ".", "*", "%s/.." % plain, "boolean(%s)" % plain, "current()/..", "descendant-or-self::node()",
                 "%s/ancestor::*" % plain, "%s/following-sibling::*" % plain, "%s[position() mod 2 = 1]" % plain, "not(%s)" % plain, "count(%s/*) + 1" % plain,
 "/*", "self::node()", "true() and %s" % plain, "(%s)[2]" % plain]
-        # (`preceding-sibling::*[1]` from a nested context node: NULL element in get_node_pos()/set_sort(), xpath.c:1500 - XPath matter)
+        # (`preceding-sibling::*[1]` is left out: it runs into F125 - get_node_pos() restarts its DFS with a stale element - far more often
+        # than the ancestor axis does)
         # node-set -> string casts (`. = 'a'`, string(), sum(), re-match()) and deref() of other than leafref / instance-identifier leaves are
         # left to the XPath property (UB in cast_string_recursive with empty values; deref() reads the value union as a path): not ownership matters
         if sn.kind in ("leaf", "leaf-list") and self.values.base(sn) in ("leafref", "instance-identifier"):
@@ -1493,7 +1494,10 @@ class HistGen:
             if rng.random() < 0.5:
                 self.emit("value_validate:%s" % ("bad" if bad else "ok"), O("vv", sn.spath(), self.tg.value(sn, 1.0 if bad else 0.0)))
             else:
-                self.emit("value_validate:ctx:%s" % ("bad" if bad else "ok"), O("vv", sn.spath(), self.tg.value(sn, 1.0 if bad else 0.0), s, self.nsel(s)))
+                # context node: a sibling-to-be of the value where we know one, never an opaque node (lyd_value_validate() takes the schema of
+                # the context node for granted: NULL dereference in lyplg_type_resolve_leafref_get_target_path() with a schema-less node)
+                self.emit("value_validate:ctx:%s" % ("bad" if bad else "ok"),
+                          O("vv", sn.spath(), self.tg.value(sn, 1.0 if bad else 0.0), s, self.nsel(s, lambda i: i.sn.data_parent() is sn.data_parent(), "$")))
 
     BAD_EDITS = [("type int8", "type nosuch"), ('path "../sl"', 'path "../nosuch"'), ("default 50", "default 500"), ("base base-id", "base nope"), ('key "k"', 'key "zz"'),
                  ("import ietf-yang-metadata", "import nosuch-mod"), ('range "0..100"', 'range "100..0"'), ('pattern "[a-z]*"', 'pattern "[a-"'),
@@ -1571,7 +1575,7 @@ class HistGen:
         fams = [f for f, w in self.FAMILIES for _ in range(w)]
         if stream == "f19":
             fams += ["g_change"] * 25
-        if stream == "f60":
+        if stream == "f111":
             fams += ["g_new_path"] * 25
         if stream == "opaq":
             # opaque nodes are kept away from merge and diff (NULL dereferences in lyd_merge_sibling_r / lyds_insert2 with
@@ -1614,61 +1618,85 @@ def seed_f21():
     return 0, FORCE_LSAN, [O("yinself", "yang", 1)]
 
 
-def seed_f60():
+def seed_f111():
     return 0, 0, [O("np", 0, 0, "/lfa:c/ax", "aaa"), O("np", 0, NP_UPDATE, "/lfa:c/ax", "bbb"), O("pr", 0, 0, 0)]
 
 
-def seed_f61():
+def seed_f112():
     """lyd_insert_sibling(sibling, node) where node is the first sibling of `sibling`"""
     return 0, FORCE_LSAN, [O("px", 0, 0, P_ONLY, 0, '<c xmlns="urn:lfa"><ksl><s1>a</s1><s2>1</s2></ksl></c>'), O("is", 0, "/lfa:c/ksl[1]/s2", 0, "/lfa:c/ksl[1]/s1", 1)]
 
 
-def seed_f62():
+def seed_f113():
     """LYD_VALIDATE_MULTI_ERROR: the parser goes on after an error; the subtree under construction is lost"""
     return 2, FORCE_LSAN, [O("px", 0, 0, 0, V_PRESENT | V_MULTI, '<r xmlns="urn:lfd"><a><n>-2147483645</n><b><x>2</x><y>lo')]
 
 
-def seed_f63():
+def seed_f114():
     """LY_CTX_LEAFREF_LINKING: freeing a tree with several leafref links"""
     doc = ('{"lfb:sys":{"name":"on","if":[{"name":"a","idx":1}],"ref":"a","lfc:rt":[{"dst":"on","pfx":32,"via":"a"},{"dst":"x","pfx":1,"via":"a"},'
            '{"dst":"y","pfx":2,"via":"a"},{"dst":"z","pfx":3,"via":"a"},{"dst":"w","pfx":4,"via":"a"}]},"lfc:cfg":{"mode":"a"}}')
     return 1, 0x400 | 4, [O("px", 1, 1, 0, V_PRESENT, doc)]
 
 
-def seed_f64():
+def seed_f115():
     """lyd_parse_data() with a parent and full validation that fails: implicit top-level nodes made by the validation are lost"""
     return 0, FORCE_LSAN, [O("px", 2, 0, P_ONLY, 0, '<c xmlns="urn:lfa"><li><k>b</k><ic><x>on</x></ic></li></c>'), O("pinp", 2, "/lfa:c/li[k='b']/ic", 1, P_STRICT, 0, "{}")]
 
 
-def seed_f68():
+def seed_f119():
     """lyd_parse_data() with a parent and validation: the first parsed child (empty container of another case) is auto-deleted"""
     return 2, 4, [O("np", 2, 0, "/lfd:r/ki[k='lfd:k2']", None), O("pinp", 2, "/lfd:r", 0, P_STRICT, V_PRESENT, '<m2 xmlns="urn:lfd"></m2>')]
 
 
-def seed_f70():
+def seed_f121():
     """LYB parse without LYD_PARSE_OPAQ of data that hold an opaque node with XML prefix data"""
     return 0, FORCE_LSAN | 4, [O("no", 2, None, "lfa", "c", "a&b", "pfx", 1), O("rt", 2, 3, 2, 2, P_ONLY, 0)]
 
 
-def seed_f72():
+def seed_f123():
     """lyd_insert_sibling() of a first top-level sibling with followers (all are moved) into siblings that hold an instance of the same list"""
     return 0, FORCE_LSAN | 4, [O("px", 2, 0, P_ONLY, 0, '<top xmlns="urn:lfa">x</top><tli xmlns="urn:lfa"><k>b</k></tli>'),
                                O("px", 5, 0, P_ONLY, 0, '<c xmlns="urn:lfa"><a>q</a></c><tli xmlns="urn:lfa"><k>x</k></tli>'), O("is", 5, "/lfa:tli[k='x']", 2, "/lfa:top", 2)]
 
 
-def seed_f72b():
+def seed_f123b():
     return 0, FORCE_LSAN | 4, [O("px", 2, 0, P_ONLY, 0, '<top xmlns="urn:lfa">x</top><tli xmlns="urn:lfa"><k>b</k><v>a</v></tli><tli xmlns="urn:lfa"><k>x</k><v>on</v></tli>'),
                                O("px", 5, 0, P_ONLY, 0, '<c xmlns="urn:lfa"><li><k>a</k></li></c><tli xmlns="urn:lfa"><k>b</k><v>a</v></tli><tli xmlns="urn:lfa"><k>x</k><v>on</v></tli>'),
                                O("is", 5, "/lfa:tli[k='x']", 2, "/lfa:top", 2)]
 
 
-def seed_f73():
+def seed_f124():
     """lyd_diff_apply_all() with a diff that creates a user-ordered leaf-list instance but lacks the yang:value metadata"""
     return 1, FORCE_LSAN | 4, [O("px", 0, 0, P_ONLY, 0, '<dns xmlns="urn:lfb">abc</dns>'), O("nm", 0, "/lfb:dns[.='abc']", "yang", "operation", "create", 0),
                                O("px", 2, 0, P_ONLY, 0, '<dns xmlns="urn:lfb">x</dns>'), O("da", 2, 0)]
 
 
-def seed_f65():
+def seed_f125():
+    """XPath node set that has to be sorted with a node that precedes the previously positioned one (ancestor axis), data with two top-level siblings"""
+    return 1, 4, [O("px", 0, 0, P_ONLY, 0, '<sys xmlns="urn:lfb"><st><up>1</up></st></sys><dns xmlns="urn:lfb">x</dns>'), O("fx", 0, "/lfb:sys/st/up", "ancestor::*")]
+
+
+def seed_f126():
+    """LYB print of an anyxml node whose value was released by lyd_any_copy_value(node, NULL, ...)"""
+    return 0, 4, [O("px", 0, 0, P_ONLY, 0, '<c xmlns="urn:lfa"><ax>t</ax></c>'), O("acs", 0, "/lfa:c/ax", 3, None), O("pr", 0, 2, 0)]
+
+
+def seed_f127():
+    """LY_CTX_LEAFREF_LINKING: leafref validation that succeeds without a target set (path not applicable from the context node / target disabled)"""
+    return 1, 0x400 | 4, [O("px", 5, 0, P_ONLY, 0, '<sys xmlns="urn:lfb"><name>abc</name><al xmlns="urn:lfc">-1</al></sys>'),
+                          O("vv", "/lfb:sys/lfb:ref", "a", 5, "/lfb:sys/lfc:al[.='-1']")]
+
+
+def seed_f128(fmt=0):
+    """error in the third child of an anydata node: only the first of the children parsed so far is released"""
+    if fmt:
+        return 0, FORCE_LSAN | 4, [O("px", 0, 1, 0, V_PRESENT, '{"lfa:c":{"ad":{"lfa:top":"a","lfa:tl":[1],"lfa:tli":[{"k":"a","v":"x","v":"y"}]}}}')]
+    return 0, FORCE_LSAN | 4, [O("px", 0, 0, 0, V_PRESENT, '<c xmlns="urn:lfa"><ad><top xmlns="urn:lfa">a</top><tl xmlns="urn:lfa">1</tl>'
+                                 '<tli xmlns="urn:lfa"><k>a</k><v>x</v><v>y</v></tli></ad></c>')]
+
+
+def seed_f116():
     """a failing XML print (anydata node with a string value) does not release the namespace sets of the printer"""
     return 0, FORCE_LSAN, [O("px", 4, 0, P_ONLY, 0, '<c xmlns="urn:lfa"><ad><x/></ad></c>'), O("acs", 4, "/lfa:c/ad", 3, '{"a":1}', 1), O("pr", 4, 0, 0)]
 
@@ -1720,7 +1748,7 @@ def _has_f19_op(line):
     return False
 
 
-def _has_f60_op(line):
+def _has_f111_op(line):
     for name, args, raw in decode_ops(line):
         if name == "np" and len(raw) >= 3 and raw[1].isdigit() and int(raw[1]) & NP_UPDATE:
             try:
@@ -1781,11 +1809,31 @@ def _has_lyb_parse_without_opaq(line):
     return _ops_with(line, ("rt",), lambda n, r: r[2] == "2" and not (int(r[4]) & P_OPAQ))
 
 
+def _failed_parse_with_any_content(line, rep):
+    """a parse op that failed and whose document (or, for rt, some tree of the history) carries an anydata node with children"""
+    rcs = re.search(r"rc=(\S+)", rep)
+    rcs = rcs.group(1).split(",") if rcs else []
+    ops = decode_ops(line)
+    anynames = (b"<ad>", b"<ad ", b'"ad":{"', b'"ad": {"')
+    hist_has_any = any(o[0] in ("nad", "na") or any(isinstance(a, bytes) and any(x in a for x in anynames) for a in o[1]) for o in ops)
+    for i, o in enumerate(ops):
+        if i >= len(rcs) or rcs[i] in ("0", "-1"):
+            continue
+        if o[0] in ("px", "pin", "pinp", "pop") and any(isinstance(a, bytes) and any(x in a for x in anynames) for a in o[1]):
+            return True
+        if o[0] == "rt" and hist_has_any:
+            return True
+    return False
+
+
 UB_SIGNATURES = [
     # (finding, function of frame #0, fragment of the UBSan message, extra condition on the history)
-    ("F66", "lyht_dup_inst_ht_equal_cb", "applying zero offset to null pointer", None),
-    ("F67", "lyd_diff_userord_attrs", "applying non-zero offset", None),
-    ("F69", "rb_compare_lists", "member access within null pointer", _has_destruct_merge),
+    ("F117", "lyht_dup_inst_ht_equal_cb", "applying zero offset to null pointer", None),
+    ("F118", "lyd_diff_userord_attrs", "applying non-zero offset", None),
+    ("F120", "rb_compare_lists", "member access within null pointer", _has_destruct_merge),
+    ("F126", "lyb_print_node_any", "null pointer passed as argument", lambda line: _ops_with(line, ("acs",), lambda n, r: r[3] == "~")),
+    ("F127", "lyplg_type_validate_leafref", "member access within null pointer of type 'struct ly set'", lambda line: bool(_ctxopts(line) & 0x400)),
+    ("F125", "get_node_pos", "member access within null pointer", lambda line: _ops_with(line, ("fx", "ex"), lambda n, r: True)),
 ]
 
 
@@ -1811,19 +1859,19 @@ def classify(component, what, case):
                 any(f.startswith(("lyht_find", "lyht_remove", "lyht_insert", "_lyht_")) for f in frames):
             # the stale record left by the value change: the freed node is read through its parent's children hash table
             return "F19"
-        if kind == "heap-use-after-free" and _has_f60_op(line) and "tmp_free" in freedby:
+        if kind == "heap-use-after-free" and _has_f111_op(line) and "tmp_free" in freedby:
             # the library kept the caller's value pointer of a lyd_new_path(UPDATE) on an existing anydata/anyxml node
-            return "F60"
+            return "F111"
         if kind == "heap-use-after-free" and _has_multierr_parse(line) and "lyd_validate_unres" in frames and \
                 any(f.startswith(("lydxml_", "lydjson_", "lyd_parse")) for f in freedby):
-            return "F62"
+            return "F113"
         if kind == "heap-buffer-overflow" and "lyd_diff_userord_attrs" in frames[:2]:
-            return "F67"
+            return "F118"
         if kind == "heap-use-after-free" and (_ctxopts(line) & 0x400) and any(f.startswith("lyd_free_leafref") for f in frames[:3]):
-            return "F63"
+            return "F114"
         if kind == "heap-use-after-free" and _has_validating_subparse(line) and "lyd_parse" in frames[:8] and \
                 any(f.startswith("lyd_validate_autodel") for f in freedby):
-            return "F68"
+            return "F119"
         return None
     rep = case.get("reply") or ""
     lk = re.search(r"leakat=(\S+)", rep)
@@ -1834,34 +1882,48 @@ def classify(component, what, case):
         return "F21"
     sf = re.search(r"sfail=(\S+)", rep)
     sf = [int(x) for x in sf.group(1).split(",")] if sf and sf.group(1) != "-" else []
-    if sf and law in ("sfail", "warn"):
-        ops = decode_ops(line)
-        yin = lambda o: (o[0] == "ymod" and o[2][0] == "1") or (o[0] == "yinself" and o[2][1] == "1")
-        if all(i < len(ops) and yin(ops[i]) for i in sf) and re.search(r"drec=0 dref=0 mid=0 ", rep):
-            # every dictionary change of the history happened in a failed YIN parse
-            return "F71"
+    ops = decode_ops(line)
+    rcs = re.search(r"rc=(\S+)", rep)
+    rcs = rcs.group(1).split(",") if rcs else []
+    yin = lambda o: (o[0] == "ymod" and o[2][0] == "1") or (o[0] == "yinself" and o[2][1] == "1")
+    failed_yin = [i for i, o in enumerate(ops) if yin(o) and i < len(rcs) and rcs[i] not in ("0", "-1")]
+    only_yin_changes = all(i in failed_yin for i in sf) and re.search(r"drec=0 dref=0 mid=0 ", rep) is not None
+    if law in ("sfail", "warn", "leak") and failed_yin and only_yin_changes and (sf or law == "leak") and \
+            leakat.startswith("yin_parse_element_generic<yin_parse_extension_instance"):
+        # F21 through a generated (corrupted) YIN document: the statement under construction in yin_parse_extension_instance() and
+        # its dictionary strings are lost when the parse of the extension instance fails; nothing else in the history changed the dictionary
+        return "F21"
+    if sf and law in ("sfail", "warn") and only_yin_changes:
+        # every dictionary change of the history happened in a failed YIN parse
+        return "F122"
+    if sf and law == "sfail" and all(i in failed_yin for i in sf):
+        # the law names the ops itself: all of them failed YIN parses, whatever else went wrong in the history
+        return "F122"
     if law == "eint" and _has_f19_op(line):
         # second face of F19: the double insertion / the removal of the stale record fails inside the hash table code
         return "F19"
     if law in ("integ", "leak", "drec", "dref", "warn") and _ops_with(line, ("is",), lambda n, r: len(r) > 4 and r[4] == "1"):
-        return "F61"
+        return "F112"
     if law in ("integ", "leak", "drec", "dref", "warn") and _ops_with(line, ("is", "ic"), lambda n, r: len(r) > 4 and r[4] == "2"):
-        return "F72"
+        return "F123"
     if law in ("drec", "dref", "mid", "warn", "leak") and _has_multierr_parse(line) and \
             (law != "leak" or leakat.startswith(("lyd_create_", "lyd_parser_", "lydxml_", "lydjson_", "lyd_new_implicit", "ly_set_", "-"))):
-        return "F62"
+        return "F113"
     if law == "leak" and leakat.startswith(("lyd_create_", "lyd_new_implicit")) and _has_full_validation_subparse(line):
-        return "F64"
+        return "F115"
     if law in ("leak", "eint") and _ops_with(line, ("ac", "acs"), lambda n, r: len(r) > 4 and r[4] == "1") and \
             (law == "eint" or leakat.startswith(("ly_set_add<xml_print_ns", "-"))):
-        return "F65"
+        return "F116"
+    if law in ("leak", "drec", "dref", "warn", "mid") and _failed_parse_with_any_content(line, rep) and \
+            ("<lydxml_subtree" in leakat or "<lydjson_" in leakat or leakat.startswith(("lyds_", "lyd_create_meta<lyds_"))):
+        return "F128"
     if law == "leak" and _has_lyb_parse_without_opaq(line) and "lyb_parse_prefix_data" in leakat:
-        return "F70"
+        return "F121"
     if law in ("leak", "drec", "dref", "warn", "mid") and leakat.startswith("lyd_dup_r<lyd_dup<lyd_diff_apply_r") and _ops_with(line, ("da",), lambda n, r: True):
         rcs = re.search(r"rc=(\S+)", rep)
         rcs = rcs.group(1).split(",") if rcs else []
         if any(o[0] == "da" and i < len(rcs) and rcs[i] not in ("0", "-1") for i, o in enumerate(decode_ops(line))):
-            return "F73"
+            return "F124"
     return None
 
 
@@ -2002,17 +2064,17 @@ def run_life(cx, workers=None):
             "fresh context and a fresh process image, laws evaluated per history (dictionary records/refcounts back at baseline, no warning at ly_ctx_destroy, "
             "LeakSanitizer, failed schema load leaves the dictionary alone, NULL outputs on failure, node links); first the witnesses of the known findings and "
             "every op family on every schema set; features with known defects only in separate sub-streams: value change of leaf-list instances / list keys (F19, "
-            "12%), lyd_new_path(UPDATE) on any nodes (F60, 3%), LYD_VALIDATE_MULTI_ERROR parses (F62, 3%), LY_CTX_LEAFREF_LINKING (F63, 2%), opaque nodes (12%, no "
-            "merge/diff), validated subtree parses (F68, 2%); non-trivial = distinct history whose reply reports at least one successful and one failing library call")
+            "12%), lyd_new_path(UPDATE) on any nodes (F111, 3%), LYD_VALIDATE_MULTI_ERROR parses (F113, 3%), LY_CTX_LEAFREF_LINKING (F114, 2%), opaque nodes (12%, no "
+            "merge/diff), validated subtree parses (F119, 2%); non-trivial = distinct history whose reply reports at least one successful and one failing library call")
 
     hist = []       # (set, ctxopts, ops, kinds, stream)
-    for s in (seed_f19(), seed_f19_key(), seed_f21(), seed_f60(), seed_f61(), seed_f62(), seed_f63(), seed_f64(), seed_f65(), seed_f68(), seed_f70(), seed_f72(), seed_f72b(), seed_f73()):
+    for s in (seed_f19(), seed_f19_key(), seed_f21(), seed_f111(), seed_f112(), seed_f113(), seed_f114(), seed_f115(), seed_f116(), seed_f119(), seed_f121(), seed_f123(), seed_f123b(), seed_f124(), seed_f125(), seed_f126(), seed_f127(), seed_f128(0), seed_f128(1)):
         hist.append((s[0], s[1], s[2], ["seed"] * len(s[2]), "seed"))
     hist += exhaustive_small(gen)
     n = int(os.environ.get("VERIF_LIFE_N", "0")) or cx.n(2200, 30000)
     for i in range(n):
         x = rng.random()
-        stream = "f19" if x < 0.12 else "f60" if x < 0.15 else "multierr" if x < 0.18 else "lrlink" if x < 0.20 else "opaq" if x < 0.32 else "subval" if x < 0.34 else "main"
+        stream = "f19" if x < 0.12 else "f111" if x < 0.15 else "multierr" if x < 0.18 else "lrlink" if x < 0.20 else "opaq" if x < 0.32 else "subval" if x < 0.34 else "main"
         si, co, ops, kinds = gen.history(stream)
         # LeakSanitizer runs whenever the byte balance of the heap is off; on top of that it is forced for a sample
         if rng.random() < (0.25 if cx.tier == "thorough" else 0.05):
